@@ -59,7 +59,9 @@ func scriptSeeds(f *testing.F, add func(unlock, lock []byte, flags uint32)) {
 
 // ---------------------------------------------------------------- C05
 
-func FuzzC05Program(f *testing.F) {
+// programTarget: the interpreter monitors that judge a (unlock, lock, flags,
+// transaction context) program against the node-rule model share one target body.
+func programTarget(f *testing.F, prop string) {
 	scriptSeeds(f, func(u, l []byte, fl uint32) { f.Add(u, l, uint16(0), uint32(0), uint32(0xffffffff), uint16(0)) })
 	scriptSeeds(f, func(u, l []byte, fl uint32) {
 		mask := uint16(0)
@@ -71,7 +73,9 @@ func FuzzC05Program(f *testing.F) {
 		f.Add(u, l, mask, uint32(500000001), uint32(5), uint16(7))
 	})
 	f.Fuzz(func(t *testing.T, unlock, lock []byte, mask uint16, locktime, sequence uint32, sats uint16) {
-		if len(unlock)+len(lock) > 4096 {
+		// the judges of C08 and C19 run a program several times under recording debuggers whose
+		// snapshots copy the stacks at every step: quadratic in the script length
+		if len(unlock)+len(lock) > 600 {
 			t.Skip()
 		}
 		in := &progInput{Unlock: unlock, Lock: lock, Flags: flagSubset(int(mask) & (1<<len(nonSigFlags) - 1)),
@@ -79,9 +83,13 @@ func FuzzC05Program(f *testing.F) {
 		if resourceHog(in.Unlock, in.Lock, in.Flags, in.Ctx) {
 			t.Skip()
 		}
-		fuzzJudge(t, "C05", "program", in)
+		fuzzJudge(t, prop, "program", in)
 	})
 }
+
+func FuzzC05Program(f *testing.F) { programTarget(f, "C05") }
+func FuzzC08Program(f *testing.F) { programTarget(f, "C08") }
+func FuzzC19Program(f *testing.F) { programTarget(f, "C19") }
 
 // ---------------------------------------------------------------- C07
 
@@ -90,7 +98,7 @@ func FuzzC07Exec(f *testing.F) {
 		f.Add(u, l, fl, uint8(1), uint8(0), uint32(0), uint32(0xffffffff), uint16(0))
 	})
 	f.Fuzz(func(t *testing.T, unlock, lock []byte, flags uint32, mode, dbg uint8, locktime, sequence uint32, sats uint16) {
-		if len(unlock)+len(lock) > 4096 {
+		if len(unlock)+len(lock) > 1500 {
 			t.Skip()
 		}
 		in := &c07Input{Unlock: unlock, Lock: lock, Flags: flags & 0xffff, Mode: c07Modes[int(mode)%len(c07Modes)],
